@@ -6,6 +6,8 @@ import (
 	"fmt"
 	"math"
 	"reflect"
+	"seehuhn.de/go/sfnt/cff"
+	"seehuhn.de/go/sfnt/glyf"
 	"time"
 
 	"github.com/google/go-cmp/cmp"
@@ -518,6 +520,102 @@ func c12Derived(r *run.Run) {
 		})
 }
 
+// c12BBoxQuadrants: glyph outlines placed in every position relative to the origin (the bounding box of a
+// font whose glyphs all lie strictly on one side of an axis does not contain the origin); the expected
+// boxes come from the points the glyphs were built from, not from the library.
+func c12BBoxQuadrants(r *run.Run) {
+	offs := []int16{-2000, -100, 0, 1, 1000}
+	r.Explore(explore.Config{Name: "C12.bbox-quadrants"},
+		"fonts of each outline kind whose glyphs are triangles at every offset (x, y) in {-2000, -100, 0, 1, 1000}^2 (boxes left of, right of, below, above, touching and containing the origin), with an empty or an outlined glyph 0: GlyphBBox of every glyph, FontBBox, FontBBoxPDF and the head table's box equal the boxes of the points the glyphs were built from",
+		func(c *explore.Ctx) {
+			kind := c.Choose(3, "outline kind")
+			ox := offs[c.Choose(len(offs), "x offset")]
+			oy := offs[c.Choose(len(offs), "y offset")]
+			emptyFirst := c.Bool("glyph 0 empty")
+			f, _ := FontFromChoices(gen.FontOpts{NoMeta: true, Compact: true, NoLayout: true}, kind, 1)
+			n := f.NumGlyphs()
+			want := make([]funit.Rect16, n)
+			var union funit.Rect16
+			first := true
+			tri := func(i int) [3][2]int16 {
+				x, y := ox+int16(10*i), oy+int16(7*i)
+				return [3][2]int16{{x, y}, {x + 100, y}, {x + 50, y + 80}}
+			}
+			for i := 0; i < n; i++ {
+				if i == 0 && emptyFirst {
+					continue
+				}
+				t := tri(i)
+				want[i] = funit.Rect16{LLx: funit.Int16(t[0][0]), LLy: funit.Int16(t[0][1]), URx: funit.Int16(t[1][0]), URy: funit.Int16(t[2][1])}
+				if first {
+					union, first = want[i], false
+				} else {
+					union.LLx, union.LLy = min(union.LLx, want[i].LLx), min(union.LLy, want[i].LLy)
+					union.URx, union.URy = max(union.URx, want[i].URx), max(union.URy, want[i].URy)
+				}
+			}
+			switch ol := f.Outlines.(type) {
+			case *glyf.Outlines:
+				o := *ol
+				o.Glyphs = append(glyf.Glyphs{}, ol.Glyphs...)
+				for i := range o.Glyphs {
+					if i == 0 && emptyFirst {
+						o.Glyphs[i] = nil
+						continue
+					}
+					t := tri(i)
+					o.Glyphs[i] = gen.SimpleGlyf([][]gen.Pt{{{t[0][0], t[0][1], true}, {t[1][0], t[1][1], true}, {t[2][0], t[2][1], true}}}, nil)
+				}
+				f.Outlines = &o
+			case *cff.Outlines:
+				o := *ol
+				o.Glyphs = append([]*cff.Glyph{}, ol.Glyphs...)
+				for i, old := range ol.Glyphs {
+					g := cff.NewGlyph(old.Name, old.Width)
+					if !(i == 0 && emptyFirst) {
+						t := tri(i)
+						g.MoveTo(float64(t[0][0]), float64(t[0][1]))
+						g.LineTo(float64(t[1][0]), float64(t[1][1]))
+						g.LineTo(float64(t[2][0]), float64(t[2][1]))
+					}
+					o.Glyphs[i] = g
+				}
+				f.Outlines = &o
+			}
+			desc := fmt.Sprintf("%s, triangles at (%d,%d), glyph 0 empty: %v", gen.KindNames[kind], ox, oy, emptyFirst)
+			c.Sample(func() any { return desc })
+			c.Nontrivial()
+			c.Outcome(desc)
+			for i := 0; i < n; i++ {
+				if got := f.GlyphBBox(glyph.ID(i)); got != want[i] {
+					c.Fail("C12.query", "GlyphBBox", "GlyphBBox(%d)=%v, the glyph's points span %v (%s)", i, got, want[i], desc)
+				}
+			}
+			if got := f.FontBBox(); got != union {
+				c.Fail("C12.query", "FontBBox", "FontBBox()=%v, union of the glyph boxes %v (%s)", got, union, desc)
+			}
+			q := f.FontMatrix[0] * 1000
+			pdf := f.FontBBoxPDF()
+			wantPDF := [4]float64{float64(union.LLx) * q, float64(union.LLy) * q, float64(union.URx) * q, float64(union.URy) * q}
+			if got := [4]float64{pdf.LLx, pdf.LLy, pdf.URx, pdf.URy}; math.Abs(got[0]-wantPDF[0]) > 1e-6 || math.Abs(got[1]-wantPDF[1]) > 1e-6 || math.Abs(got[2]-wantPDF[2]) > 1e-6 || math.Abs(got[3]-wantPDF[3]) > 1e-6 {
+				c.Fail("C12.query", "FontBBoxPDF", "FontBBoxPDF()=%v want %v (%s)", got, wantPDF, desc)
+			}
+			file, err := writeFont(f)
+			if err != nil {
+				c.Fail("C12.write", gen.KindNames[kind], "Write: %v (%s)", err, desc)
+				return
+			}
+			cont, _ := refsfnt.Walk(file)
+			hd, _ := cont.Table(file, "head")
+			if len(hd) >= 44 {
+				got := funit.Rect16{LLx: funit.Int16(binary.BigEndian.Uint16(hd[36:])), LLy: funit.Int16(binary.BigEndian.Uint16(hd[38:])), URx: funit.Int16(binary.BigEndian.Uint16(hd[40:])), URy: funit.Int16(binary.BigEndian.Uint16(hd[42:]))}
+				if got != union {
+					c.Fail("C12.derived", "head.FontBBox", "head bbox %v want %v (%s)", got, union, desc)
+				}
+			}
+		})
+}
+
 func isCID(f *sfnt.Font) bool {
 	o, ok := f.Outlines.(interface{ IsCIDKeyed() bool })
 	return ok && o.IsCIDKeyed()
@@ -624,6 +722,7 @@ func init() {
 		c12Hmtx(r)
 		c12HmtxScaled(r)
 		c12Derived(r)
+		c12BBoxQuadrants(r)
 		c12FontTimes(r)
 	})
 }
